@@ -239,7 +239,10 @@ fn gen_argv(r: &mut Rng, has_f: bool) -> Vec<String> {
     for (opt, name) in [("--json", "o.json"), ("--xml", "o.xml"), ("--txt", "o.txt"), ("--oc", "oc.csv"), ("--of", "of.csv")] {
         if r.chance(1, 4) {
             a.push(s(opt));
-            a.push(match r.below(9) {
+            a.push(match r.below(11) {
+                // an output path that is the components file itself, or shared by several outputs
+                9 => s("{C}"),
+                10 => s("{D}/shared.out"),
                 0 => s("{D}/no_such_dir/out"),
                 1 => s("{D}"),
                 2 => s("/proc/version"),
